@@ -591,7 +591,27 @@ def b_abs(interp, argv, kwv, fr):
     raise Undecided('abs')
 
 
+def b_any(interp, argv, kwv, fr):
+    """any(<adjacency>.values()): trusted networkx/Python model - the row views of an adjacency are visited one per stored row and a row
+    view is truthy iff it has an entry, so the result is true iff some stored row has a cell"""
+    v = argv[0]
+    if len(argv) == 1 and v.kind == 'keys' and v.what == 'values' and v.base.kind == 'adj':
+        from .sym import Bool
+        g, w = v.base.g, v.base.w
+        Row, C = g['Row_' + w], g['Cell_' + w]
+        r, wa, wb = fresh('any', Bool), fresh('wa', Node), fresh('wb', Node)
+        a, b = z3.Const('a?any', Node), z3.Const('b?any', Node)
+        ctx = interp.ctx
+        ctx.assume(z3.Implies(r, z3.And(Row[wa], C[wa][wb] != 0)), 'call')
+        ctx.assume(z3.ForAll([a, b], z3.Implies(z3.And(Row[a], C[a][b] != 0), r), patterns=[C[a][b]]), 'call')
+        ctx.notes.append('any() over the row views of an adjacency: true iff some stored row has an entry (trusted)')
+        ctx.any_calls = getattr(ctx, 'any_calls', []) + [(g, w)]
+        return VBool(r)
+    raise Undecided('any() of %s' % v.kind)
+
+
 BUILTINS = {
+    'any': b_any,
     'isinstance': b_isinstance, 'type': b_type, 'len': b_len, 'range': b_range, 'list': b_list,
     'iter': b_iter, 'int': b_int, 'max': b_max, 'min': b_min, 'sorted': b_sorted, 'sum': b_sum,
     'dict': b_dict, 'super': b_super, 'next': b_next, 'set': b_set, 'zip': b_zip,
